@@ -1,0 +1,12 @@
+//go:build verif
+
+// Contracts for the bytecode program package, read by /verif/govc.
+// This file contains comments only; it is compiled only with -tags verif.
+
+package program
+
+//@ func program.OpcodeName
+//@   pure
+
+//@ func (program.Constant).GetType
+//@   pure
